@@ -46,8 +46,8 @@ MUT = ["append", "pop", "insert", "extend", "remove", "reverse", "sort", "clear"
 
 I2 = st.integers(0, 2)
 OP = st.one_of(
-    st.tuples(st.just("set"), I2, st.sampled_from(SCALARS), st.integers(0, 12)),
-    st.tuples(st.just("set"), I2, st.sampled_from(SCALARS), st.integers(0, 12)),
+    st.tuples(st.just("set"), I2, st.sampled_from(SCALARS), st.integers(0, 14)),
+    st.tuples(st.just("set"), I2, st.sampled_from(SCALARS), st.integers(0, 14)),
     st.tuples(st.just("setlist"), I2, st.sampled_from(LISTS), st.lists(st.integers(0, 5), max_size=4)),
     st.tuples(st.just("lop"), I2, st.sampled_from(LISTS), st.sampled_from(MUT), st.integers(-3, 3), st.integers(0, 5)),
     st.tuples(st.just("lop"), I2, st.sampled_from(LISTS), st.sampled_from(MUT), st.integers(-3, 3), st.integers(0, 5)),
@@ -59,8 +59,17 @@ OP = st.one_of(
 ).map(list)
 
 
+FANOUT = {
+    # several partners on one trait, the stricter one registered first
+    "scalar": [["sync", 0, 1, ["v", "r"], True], ["sync", 0, 2, ["v", "v"], True]],
+    "list": [["sync", 0, 1, ["xs", "zs"], True], ["sync", 0, 2, ["xs", "xs"], True]],
+    "scalar-one-way": [["sync", 0, 1, ["v", "r"], False], ["sync", 0, 2, ["v", "w"], False]],
+}
+
+
 def strategy(tier):
-    return st.fixed_dictionaries({"ops": st.lists(OP, min_size=2, max_size=25)})
+    return st.fixed_dictionaries({"ops": st.lists(OP, min_size=2, max_size=25),
+                                  "prelude": st.sampled_from([None, None, "scalar", "list", "scalar-one-way"])})
 
 
 def accepts(name, val):
@@ -126,6 +135,7 @@ def run(case, ctx):
             o.on_trait_change(mk(i, n), n)
         for n in LISTS:
             o.on_trait_change(mk(i, n + "_items"), n + "_items")
+    del o          # (the loop variable would keep objs[2] alive and defeat the partner-collection steps)
     push_exception_handler(handler=lambda o, n, old, new: err.append((n, old, new)), reraise_exceptions=False, main=True)
     interesting = False
 
@@ -177,8 +187,11 @@ def run(case, ctx):
         for dst in out_edges(key):
             poison(dst, seen)
 
+    ops = (FANOUT[case["prelude"]] if case.get("prelude") else []) + list(case["ops"])
+    if case.get("prelude"):
+        ctx.label("fanout:" + case["prelude"])
     try:
-        for op in case["ops"]:
+        for op in ops:
             k = op[0]
             calls.clear()
             del err[:]
@@ -254,8 +267,12 @@ def run(case, ctx):
                     i = op[1]
                     if objs[i] is None or not any(e[0] == i or e[2] == i for e in edges):
                         continue
+                    import weakref
+                    w = weakref.ref(objs[i])
                     objs[i] = None
                     gc.collect()
+                    if w() is not None:
+                        ctx.fail("collect/partner-kept-alive", "%s: the dropped partner is kept alive (by a sync link?)" % what)
                     links = [l for l in links if l[0] != i and l[2] != i]
                     for e in list(edges):
                         if e[0] == i or e[2] == i:
